@@ -70,6 +70,7 @@ import (
 type g2lEffFn struct {
 	through map[types.Object]bool // pointer / slice variables the body writes through
 	roots   map[types.Object]bool // variables of the effect loops that are open now
+	errVars map[types.Object]bool // go2lean_errfn.go: the `err` of `if err := f(…); err != nil` while its body is translated
 }
 
 // g2lEffFacts is the per-run bookkeeping of this file (a field of g2lExt would
@@ -202,7 +203,7 @@ func (f *g2lFn) initEff(fd *ast.FuncDecl) {
 	if !f.g.effectsOn() {
 		return // f.eff stays nil: effPlace, assignEff, rangeEff, stmtEff are off
 	}
-	f.eff = &g2lEffFn{through: map[types.Object]bool{}, roots: map[types.Object]bool{}}
+	f.eff = &g2lEffFn{through: map[types.Object]bool{}, roots: map[types.Object]bool{}, errVars: map[types.Object]bool{}}
 	mark := func(e ast.Expr) {
 		if id, ok := ast.Unparen(e).(*ast.Ident); ok {
 			_ = id
@@ -421,7 +422,7 @@ func (f *g2lFn) rangeEff(x *ast.RangeStmt, ind int) ([]string, bool) {
 	if !f.effPlace(x.X) {
 		f.fail("the loop over `%s` writes through its elements, and `%s` is not reachable from an in-out parameter", f.src(x.X), f.src(x.X))
 	}
-	if g2lHasBranch(x.Body.List, token.BREAK) || g2lHasBranch(x.Body.List, token.CONTINUE) || g2lHasReturn(x.Body.List) {
+	if g2lHasBranch(x.Body.List, token.BREAK) || g2lHasBranch(x.Body.List, token.CONTINUE) || f.hasPlainReturn(x.Body.List) { // go2lean_errfn.go: a throw is allowed
 		f.fail("break, continue or return in the loop over `%s`, which writes through its elements", f.src(x.X))
 	}
 	// the body sees the slice as it was before the loop until the list is stored back:
@@ -477,6 +478,9 @@ func (f *g2lFn) rangeEff(x *ast.RangeStmt, ind int) ([]string, bool) {
 func (f *g2lFn) stmtEff(s ast.Stmt, ind int) ([]string, bool) {
 	if f.eff == nil {
 		return nil, false
+	}
+	if out, ok := f.ifErrCall(s, ind); ok { // go2lean_errfn.go: if err := f(…); err != nil { return E }
+		return out, true
 	}
 	var c *ast.CallExpr
 	var lhs []ast.Expr
@@ -610,6 +614,20 @@ func (f *g2lFn) addrSafe(x *ast.UnaryExpr, o *types.Var) bool {
 	ok := true
 	var loops []ast.Node
 	var stack []ast.Node
+	// go2lean_errfn.go: the innermost block around x ends in a return — nothing beyond it is reached after x
+	var limFrom, limTo token.Pos
+	ast.Inspect(fd.Body, func(n ast.Node) bool {
+		if n == nil {
+			stack = stack[:len(stack)-1]
+			return true
+		}
+		stack = append(stack, n)
+		if n == ast.Node(x) {
+			limFrom, limTo = f.addrSafeLimit(stack)
+		}
+		return true
+	})
+	stack = nil
 	ast.Inspect(fd.Body, func(n ast.Node) bool {
 		if n == nil {
 			stack = stack[:len(stack)-1]
@@ -617,7 +635,7 @@ func (f *g2lFn) addrSafe(x *ast.UnaryExpr, o *types.Var) bool {
 		}
 		stack = append(stack, n)
 		written := func(e ast.Expr) {
-			if r := f.rootOf(e, true); r == o && e.Pos() > x.Pos() {
+			if r := f.rootOf(e, true); r == o && e.Pos() > x.Pos() && (limTo == 0 || e.Pos() < limTo) {
 				ok = false
 			}
 		}
@@ -645,7 +663,7 @@ func (f *g2lFn) addrSafe(x *ast.UnaryExpr, o *types.Var) bool {
 	})
 	if len(loops) > 0 {
 		in := loops[len(loops)-1]
-		if o.Pos() < in.Pos() || o.Pos() > in.End() {
+		if (o.Pos() < in.Pos() || o.Pos() > in.End()) && !(limTo != 0 && limFrom > in.Pos()) {
 			ok = false
 		}
 	}
@@ -685,7 +703,8 @@ func (g *g2l) headerEff() string {
 		"    configuration leaves out on purpose are dropped (droppedWrites).\n" +
 		"  * calls of functions with in-out parameters are statements whose results are\n" +
 		"    stored back into the argument places (inOutCalls).\n" +
-		"  * &x of a local assigned only before that point is some x (addrOfAssigned).\n"
+		"  * &x of a local assigned only before that point is some x (addrOfAssigned).\n" +
+		g.headerErr() // go2lean_errfn.go
 }
 
 func (g *g2l) emitEffFacts(w func(string, ...any), okUnits map[string]bool) {
@@ -729,5 +748,6 @@ func (g *g2l) emitEffFacts(w func(string, ...any), okUnits map[string]bool) {
 	pairs("droppedWrites", "writes to fields the configuration leaves out of the Lean structure (function, target)", e.dropped)
 	pairs("inOutCalls", "calls of functions with in-out parameters, results stored back (function, call)", e.calls)
 	pairs("addrOfAssigned", "`&x` of a local whose assignments all precede it (function, expression)", e.addrs)
+	g.emitErrFacts(w, okUnits) // go2lean_errfn.go
 	delete(g2lEffOf, g)
 }
